@@ -384,3 +384,18 @@ package arvados
 //@ func KeepService.Index property C06
 //@   only calls: KeepService.index KeepService.url
 //@   calls KeepService.index#1: requires $0 == ctx && $1 == c && $2 == KeepService.url(s, "index/" + prefix)
+
+// Thin wrappers of the file API: OpenFile is openFile; Open is a read-only
+// open; Create is create + read-write + truncate; a handle's Truncate goes to
+// its inode with the same size, and a file node truncates under its lock.
+//@ func fileSystem.OpenFile property C08
+//@   calls fileSystem.openFile#1: requires $0 == name && $1 == flag && $2 == perm
+//@ func fileSystem.Open property C08
+//@   calls fileSystem.OpenFile#1: requires $0 == name && $1 == 0
+//@ func fileSystem.Create property C08
+//@   calls fileSystem.OpenFile#1: requires $0 == name && $1 == os.O_CREATE + os.O_RDWR + os.O_TRUNC
+//@ func filehandle.Truncate property C08
+//@   calls inode.Truncate#1: requires $recv == f.inode && $0 == size
+//@ func filenode.Truncate property C08
+//@   requires fnValid(fn) && size >= 0 && fn.repacked >= 0
+//@   calls filenode.truncate#1: requires $0 == size
